@@ -469,7 +469,7 @@ Fixpoint bsearch (fuel : nat) (offs : list N) (off : N) (left right : N) (result
 Definition search_line (offs : list N) (off : N) : option N :=
   let cnt := N.of_nat (List.length offs) in
   if (cnt =? 0) || (off <=? nthN offs 0) then None
-  else bsearch (S (S (N.to_nat (N.log2 cnt + 1)))) offs off 0 (cnt - 1) None.
+  else bsearch (S (N.to_nat cnt)) offs off 0 (cnt - 1) None.
 Definition get_position (offs : list N) (off : N) : N * N * N :=
   match search_line offs off with
   | None => (off, 1, off + 1)
